@@ -162,6 +162,7 @@ func C01(r *core.Run) {
 		var wg sync.WaitGroup
 		// barrier-released bursts: all clients wait for step i before sending request i
 		var step int64
+		var lost int64
 		for c := 0; c < K; c++ {
 			wg.Add(1)
 			go func(c int) {
@@ -179,7 +180,12 @@ func C01(r *core.Run) {
 					if p.Method == "POST" {
 						body = tokBytes(p.Tok, "req", p.ReqSize)
 					}
-					raw := tokRequest(p.Method, p.Tok, p.RespSize, p.Delay, "h"+p.Tok+".example", body, nil)
+					// correlation-style headers shared by several concurrent requests: they must never act as keys
+					extra := []rawhttp.Field{{Name: "X-Request-Id", Value: fmt.Sprintf("rid-%d", c%3)}, {Name: "X-Correlation-Id", Value: "shared"}}
+					if i%3 == 0 {
+						extra = nil
+					}
+					raw := tokRequest(p.Method, p.Tok, p.RespSize, p.Delay, "h"+p.Tok+".example", body, extra)
 					if p.Abort {
 						// send and walk away: the response must reach nobody else
 						if conn, err := net.DialTimeout("tcp", t.addr, 5*time.Second); err == nil {
@@ -192,7 +198,13 @@ func C01(r *core.Run) {
 						mu.Unlock()
 						continue
 					}
+					if atomic.LoadInt64(&lost) >= 8 {
+						break // responses are being lost in this round: do not sit out 30 s for every remaining request
+					}
 					m, err := cl.Do(raw, p.Method)
+					if err != nil {
+						atomic.AddInt64(&lost, 1)
+					}
 					res := result{tok: p.Tok, method: p.Method, size: p.RespSize, reqSize: p.ReqSize, err: err}
 					if err == nil {
 						res.bad = checkTokResponse(m, p.Method, p.Tok, p.RespSize)
